@@ -186,7 +186,12 @@ JudgePath(rec) ==
         bad == {r \in 1..Len(rec.paths) : cl[r] # "ok"}
         badd == {r \in 1..Len(rec.d) : rec.d[r] # -9 /\ rec.d[r] # Enc(opt)}
     IN IF IsInf(opt) THEN TRUE      \* no admissible path: nothing is promised about a path
-       ELSE IF bad # {} THEN Fail(rec.id, rec.routes[SetMin(bad)] \o ":" \o cl[SetMin(bad)])
+       \* report a structural clause (range, steps, band, maxstep, start) before an end/cost/empty one, so
+       \* that the known end-relaxation finding cannot mask a different rejection of the same record
+       ELSE IF bad # {} THEN
+            LET hard == {r \in bad : cl[r] \notin {"end", "cost", "empty"}}
+                pick == IF hard # {} THEN SetMin(hard) ELSE SetMin(bad)
+            IN Fail(rec.id, rec.routes[pick] \o ":" \o cl[pick])
        ELSE IF badd # {} THEN Fail(rec.id, rec.routes[SetMin(badd)] \o ":dist")
        ELSE TRUE
 
